@@ -46,7 +46,7 @@ mutual
       simp only [mulConst]; split_ifs <;> simp [rows, cols, rows_mkMul, cols_mkMul, this]
     | sum l => simpa [mulConst, rows, cols] using shapeL_mulConst S l c
     | psdSum l => simpa [mulConst, rows, cols] using shapeL_mulConst S l c
-    | sumKron a b => simpa [mulConst, rows, cols] using shape_mulConst S a c
+    | sumKron a b => simpa [mulConst, rows, cols, rowsL, colsL] using shape_mulConst S a c
     | addedDiag a d => simpa [mulConst, rows, cols] using shape_mulConst S a c
     | kronAddedDiag a d => simpa [mulConst, rows, cols] using shape_mulConst S a c
     | lrrAddedDiag a d =>
@@ -104,7 +104,7 @@ mutual
     | sum l => simpa [mulConst, denote] using mulConstL_refines S hS l c i j
     | psdSum l => simpa [mulConst, denote] using mulConstL_refines S hS l c i j
     | sumKron a b =>
-      simp only [mulConst, denote, mulConst_refines S hS a c, mulConst_refines S hS b c]; ring
+      simp only [mulConst, denote, denoteL, mulConst_refines S hS a c, mulConst_refines S hS b c]; ring
     | addedDiag a d =>
       simp only [mulConst, denote, mulConst_refines S hS a c, mulConst_refines S hS d c]; ring
     | kronAddedDiag a d =>
